@@ -1324,6 +1324,7 @@ func (p *pipe) DoStream(ctx context.Context, pool *pool, cmd Completed) RedisRes
 	cmds.CompletedCS(cmd).Verify()
 
 	if err := ctx.Err(); err != nil {
+		pool.Store(p) // the caller acquired p from the pool: give it back on this path too
 		return NewErrorResultStream(err)
 	}
 	state := atomic.LoadInt32(&p.state)
@@ -1373,6 +1374,7 @@ func (p *pipe) DoMultiStream(ctx context.Context, pool *pool, multi ...Completed
 	}
 
 	if err := ctx.Err(); err != nil {
+		pool.Store(p) // the caller acquired p from the pool: give it back on this path too
 		return NewErrorResultStream(err)
 	}
 	state := atomic.LoadInt32(&p.state)
